@@ -1,6 +1,6 @@
 SPECIFICATION Spec
 CONSTANTS
-  Start = "expr"
+  Start = "ident"
   Budget = 0
   Collapse = FALSE
   Export = FALSE
